@@ -46,6 +46,14 @@ pub fn lexists(path: &Path) -> Result<bool> {
     Ok(found(path.symlink_metadata())?.is_some())
 }
 
+/// Whether two paths name the same filesystem entry (same device and
+/// inode), *not* following a final symlink in either.
+pub fn same_entry(a: &Path, b: &Path) -> Result<bool> {
+    use std::os::unix::fs::MetadataExt;
+    let (a, b) = (a.symlink_metadata()?, b.symlink_metadata()?);
+    Ok(a.dev() == b.dev() && a.ino() == b.ino())
+}
+
 /// Whether `path` is (or is a symlink to) a directory.
 pub fn is_dir(path: &Path) -> Result<bool> {
     Ok(found(path.metadata())?.is_some_and(|meta| meta.is_dir()))
